@@ -20,6 +20,10 @@ ASSUMPTIONS = [
 
 PROPS = {
 
+    "C16": {"rule": 'accounts and mints with random/boundary field values, every option tag and account state, packed by spl-token-interface; extended for Token-2022 with an account-type byte (right, wrong, invalid) plus TLV-looking data or garbage of 0..400 bytes, zero padding, the 355-byte multisig length; random lengths around 82/165/166/355; sparse random strings; the bytes at 45/108/165 swept over {0,1,2,3,255}; option tags and state corrupted in 1/8; each string goes through generic Account/Mint::unpack under three program ids, the trait getters, Pack::unpack of both reference crates and StateWithExtensions::unpack; non-trivial = some parser accepted', "partial": ["the reference model (Token/Model.v) equals the crates: validated on every run in both directions, not proved"], "masks": [],
+            "assumptions": ["program ids and packed lengths are read from the crates and compared with the constants the model uses"]},
+    "C17": {"rule": 'accounts and mints with random/boundary field values, every option tag and account state, packed by spl-token-interface; extended for Token-2022 with an account-type byte (right, wrong, invalid) plus TLV-looking data or garbage of 0..400 bytes, zero padding, the 355-byte multisig length; random lengths around 82/165/166/355; sparse random strings; the bytes at 45/108/165 swept over {0,1,2,3,255}; option tags and state corrupted in 1/8; each string goes through generic Account/Mint::unpack under three program ids, the trait getters, Pack::unpack of both reference crates and StateWithExtensions::unpack; non-trivial = some parser accepted' + "; C17 additionally sweeps every length 0..400 with the bytes at 45/108/165 over {0,1,2,3,255} (thorough: all 256 values at 45)", "partial": [], "masks": [], "assumptions": []},
+
     "C13": {"rule": "exhaustive: all 65536 values of u16 and i16 in both directions and all 256 PodBool bytes (sent to Coq as three blobs and compared by one recursive check each); "
             "u32/u64/u128/i64: boundary values (0, 1, max, max-1, top bit, single bits, a byte-order pattern) and random values; usize conversions at 0, 65535/6/7, 2^32+-1, usize::MAX, 2^63 and random; "
             "byte casts of every slice length 0..64 for the 7 Pod types (pod_from_bytes, pod_maybe_from_bytes, pod_slice_from_bytes, with pointer aliasing checked); "
